@@ -22,11 +22,13 @@ package bufctl
 //@ func (c *controller) handleFileAnnotationSetRetError(retErrAddr)
 //@   property C20
 //@   modifies heap, ghost.annotPrinted, ghost.fail, ghost.wfail
-//@   requires !ghost.fail && !ghost.annotPrinted
+// (ca-C2: the precondition on ghost.fail is gone, the two clauses that needed it are stated for any entry value: callers that
+// went through contracted callees listing ghost.fail under modifies could not re-establish it before the deferred call)
+//@   requires !ghost.annotPrinted
 //@   ensures never-cleared: old(derefRef(retErrAddr)) != nil ==> derefRef(retErrAddr) != nil
 //@   ensures nil-stays: old(derefRef(retErrAddr)) == nil ==> derefRef(retErrAddr) == nil && ghost.annotPrinted == old(ghost.annotPrinted)
-//@   ensures outcome: derefRef(retErrAddr) == old(derefRef(retErrAddr)) || (ghost.annotPrinted && (derefRef(retErrAddr) == ErrFileAnnotation || (ghost.fail && !old(ghost.fail))))
-//@   ensures printed-gives-100: ghost.annotPrinted && !old(ghost.annotPrinted) && !(ghost.fail && !old(ghost.fail)) ==> derefRef(retErrAddr) == ErrFileAnnotation
+//@   ensures outcome: derefRef(retErrAddr) == old(derefRef(retErrAddr)) || (ghost.annotPrinted && (derefRef(retErrAddr) == ErrFileAnnotation || ghost.fail))
+//@   ensures printed-gives-100: ghost.annotPrinted && !old(ghost.annotPrinted) && !ghost.fail ==> derefRef(retErrAddr) == ErrFileAnnotation
 //
 //@ table errFileAnnotation {C20} of ErrFileAnnotation
 //@   ensures status-100: cast(*app.appError, ErrFileAnnotation).exitCode == 100
